@@ -34,6 +34,18 @@ func (e *Enc) varAt(fr *Frame, name string, at *ssa.BasicBlock, pos token.Pos, p
 				return e.phiSV(fr, phi, phiMap), true
 			}
 		}
+		// The loop was a range loop when the clause was written and is an index loop
+		// now (for x := 0; ...; x++): at the loop head the range counter is x-1.
+		if fs, ok := e.loopNode[at].(*ast.ForStmt); ok && fs.Init != nil {
+			if as, ok := fs.Init.(*ast.AssignStmt); ok && as.Tok == token.DEFINE && len(as.Lhs) == 1 {
+				if id, ok := as.Lhs[0].(*ast.Ident); ok {
+					if v, ok := e.varAt(fr, id.Name, at, pos, phiMap, heap); ok && v.S == "Int" {
+						e.warn("clause names the range counter $i of a loop that is an index loop now; read as %s-1", id.Name)
+						return SV{T: fmt.Sprintf("(- %s 1)", v.T), S: "Int", GoT: types.Typ[types.Int]}, true
+					}
+				}
+			}
+		}
 		return SV{}, false
 	}
 	if obj == nil {
@@ -43,8 +55,32 @@ func (e *Enc) varAt(fr *Frame, name string, at *ssa.BasicBlock, pos token.Pos, p
 				return e.opSV(fr.ops[p], p.Type()), true
 			}
 		}
-		// a local that was renamed since the contract was written (locals.go)
 		if fr.isRoot {
+			// The loop was an index loop over `name` when the clause was written and is a
+			// range loop with that key now: at the loop head the key about to be
+			// processed is the range counter + 1.
+			if rs, ok := e.loopNode[at].(*ast.RangeStmt); ok && rs.Tok == token.DEFINE {
+				if id, ok := rs.Key.(*ast.Ident); ok && (id.Name == name || e.renamed()[name] == id.Name) {
+					if v, ok := e.varAt(fr, "$i", at, pos, phiMap, heap); ok && v.S == "Int" {
+						e.warn("clause names %q, which is the key of a range loop now; read as $i+1", name)
+						return SV{T: fmt.Sprintf("(+ %s 1)", v.T), S: "Int", GoT: types.Typ[types.Int]}, true
+					}
+				}
+			}
+			// The clause names the local a range loop iterated over, and the loop ranges
+			// over an expression now (for _, x := range c.f()): read the name as the
+			// value being ranged over.
+			if _, ok := e.loopNode[at].(*ast.RangeStmt); ok && pinnedRanges[e.w.funcKey(e.root)][fmt.Sprint(e.loops[at])] == name {
+				if x := rangedOperand(at); x != nil {
+					op, ok := fr.ops[x]
+					if !ok {
+						op = e.operand(fr, x)
+					}
+					e.warn("clause names %q, the local the loop ranged over; the loop ranges over an expression now, read as that value", name)
+					return e.opSV(op, x.Type()), true
+				}
+			}
+			// a local that was renamed since the contract was written (locals.go)
 			if to, ok := e.renamed()[name]; ok && to != name {
 				e.warn("clause names local %q, which no longer exists; following the declaration order it is read as %q", name, to)
 				return e.varAt(fr, to, at, pos, phiMap, heap)
@@ -754,3 +790,41 @@ func (e *Enc) renamed() map[string]string {
 
 // pinnedLocals is loaded by the check command from baseline/*.locals.json.
 var pinnedLocals = map[string][]LocalDecl{}
+
+// pinnedRanges: function -> loop ordinal -> name of the local a range loop iterated
+// over on the pinned tree (baseline/*.ranges.json).
+var pinnedRanges = map[string]map[string]string{}
+
+// rangedOperand finds the slice a range loop with header hb iterates over: go/ssa
+// compiles `for k := range x` to `n = len(x)` before the loop and `k' < n` in the header.
+func rangedOperand(hb *ssa.BasicBlock) ssa.Value {
+	for _, in := range hb.Instrs {
+		b, ok := in.(*ssa.BinOp)
+		if !ok || b.Op != token.LSS {
+			continue
+		}
+		call, ok := b.Y.(*ssa.Call)
+		if !ok {
+			continue
+		}
+		if bi, ok := call.Call.Value.(*ssa.Builtin); ok && bi.Name() == "len" && len(call.Call.Args) == 1 {
+			return call.Call.Args[0]
+		}
+	}
+	return nil
+}
+
+// rangesOf lists, per loop ordinal, the identifier a range loop iterates over.
+func (w *World) rangesOf(fn *ssa.Function) map[string]string {
+	out := map[string]string{}
+	_, nodes := w.loopOrdinals(fn)
+	ords, _ := w.loopOrdinals(fn)
+	for hb, n := range nodes {
+		if rs, ok := n.(*ast.RangeStmt); ok {
+			if id, ok := rs.X.(*ast.Ident); ok {
+				out[fmt.Sprint(ords[hb])] = id.Name
+			}
+		}
+	}
+	return out
+}
